@@ -95,6 +95,7 @@ class SimQueue:
         self.wlock_owner = None
         self.feeders = {}
         self.reader_committed = False
+        self.rlock_owner = None
         self.n_put = 0
         self.n_got = 0
         self.cancel_join = set()
@@ -245,23 +246,35 @@ class SimQueue:
         return pickle.loads(fr.data)
 
     def get(self, block=True, timeout=None):
+        """Queue.get: take the reader lock (held while waiting for data), poll, recv_bytes, release."""
         w = self.world
+        me = w.current_proc()
         d = "q%d" % self.qid
+        free = lambda: self.rlock_owner is None
         if not block:
             w.seam(Op("get_nowait", d))
-            if not self._avail():
+            if not free() or not self._avail():
                 raise _queue.Empty
-        elif timeout is None:
-            w.seam(Op("get", d, can_run=self._avail))
+            self.rlock_owner = me
         else:
-            if timeout < 0:
-                timeout = 0
-            to = w.seam(
-                Op("get", d, can_run=self._avail, can_timeout=lambda: not self._avail(), timeout=timeout)
-            )
-            if to:
-                w.note_probe("get_timed_out")
-                raise _queue.Empty
+            if not free():
+                # another reader (a sibling worker on a shared task queue) holds the reader lock
+                to = w.seam(Op("get-rlock", d, can_run=free, can_timeout=(lambda: not free()) if timeout is not None else None, timeout=timeout))
+                if to:
+                    raise _queue.Empty
+            self.rlock_owner = me
+            if timeout is None:
+                w.seam(Op("get", d, can_run=self._avail))
+            else:
+                if timeout < 0:
+                    timeout = 0
+                to = w.seam(
+                    Op("get", d, can_run=self._avail, can_timeout=lambda: not self._avail(), timeout=timeout)
+                )
+                if to:
+                    self.rlock_owner = None
+                    w.note_probe("get_timed_out")
+                    raise _queue.Empty
         # poll() succeeded: recv_bytes() has no deadline
         fr = self.frames[0]
         if fr.written < fr.total:
@@ -270,6 +283,7 @@ class SimQueue:
             self.reader_committed = True
             w.note_probe("reader_committed_to_partial_frame")
             w.seam(Op("recv", d, can_run=lambda: fr.written == fr.total))
+        self.rlock_owner = None
         return self._pop_head()
 
     def get_nowait(self):
@@ -920,12 +934,28 @@ class SimWorld:
             f.buffer.clear()
         if getattr(proc, "extra_locks", 0) > 0 or (getattr(proc, "holds_pool_lock", None) and proc.holds_pool_lock()):
             lock_leaked = True
+        for q in self.queues:
+            if q.rlock_owner is proc:
+                lock_leaked = True  # died inside Queue.get(): the reader lock stays locked
+                self.note_probe("death_with_reader_lock_held")
         if getattr(proc, "running_task", None) is not None:
             lost += 1
         self._release_fds(proc)
         task = proc.task
         at_exit = task.pending is not None and task.pending.kind in ("exit-flush", "exit")
         delivered_all = at_exit and proc.target_done and lost == 0
+        pend = task.pending
+        if (
+            pend is not None
+            and pend.kind in ("get", "recv", "sq-get-lock", "sq-get-recv", "conn-recv", "conn-poll", "event_wait", "queue_join")
+            and pend.can_run is not None
+            and not pend.can_run()
+            and lost == 0
+            and not lock_leaked
+            and proc.n_put == proc.n_flushed
+        ):
+            # a long-lived worker that is blocked waiting for input and owes nothing has no batch in hand
+            delivered_all = True
         if getattr(proc, "pool", None) is not None:
             # a pool worker has a batch only while it runs a task: dying idle (and without a pool lock)
             # loses nothing
@@ -1071,6 +1101,7 @@ class KillFault:
             return any(self.matches_feeder(proc, f) for f in proc.feeders)
         if self.ordinary and (
             any(f.holds_lock() for f in proc.feeders)
+            or any(q.rlock_owner is proc for q in world.queues)
             or getattr(proc, "extra_locks", 0) > 0
             or (getattr(proc, "holds_pool_lock", None) and proc.holds_pool_lock())
         ):
